@@ -32,7 +32,8 @@ RetryLoop(stk, i, sg0) ==
            spent == (p.max # -1 /\ f > p.max) \/ (p.maxd # 0 /\ elapsed > p.maxd)
            aborts == AbortsCode(p.a, o.r, o.e)
            sg1 == [sg EXCEPT !.f[i] = f, !.ex[i] = spent]
-           dl0 == IF p.maxd # 0 THEN (IF p.dly < p.maxd - elapsed THEN p.dly ELSE p.maxd - elapsed) ELSE p.dly
+           base == RetryDelayOf(p, o.r, o.e)
+           dl0 == IF p.maxd # 0 THEN (IF base < p.maxd - elapsed THEN base ELSE p.maxd - elapsed) ELSE base
            dl == IF dl0 < 0 THEN 0 ELSE dl0
        IN IF spent /\ ~p.rlf THEN Out(Pair("R0", Exceeded(o.r, o.e)), FALSE, sg1)
           ELSE IF aborts \/ spent \/ p.max = 0 THEN Out(o, FALSE, sg1)
